@@ -1,3 +1,96 @@
-From QCE Require Import C09.Proofs.
-Theorem C09_placeholder_partial : True. Proof. exact placeholder. Qed.
-Print Assumptions C09_placeholder_partial.
+(* C09 -- Repetition-code circuits run the protocol: deterministic detectors, exact record.
+   Property theorems only; each closed by `exact <lemma>`; assumptions printed beneath.
+
+   Objects:  rep_stim D init anc cycles   the closed form of the constructor's Stim export (normal form) for a description D
+                                          (C09/Model.v; tied to the real export instruction for instruction by the check)
+             exec                         the product-state semantics of the exported gate set (C09/Sem.v; tied to Stim)
+             protocol_record / protocol_detectors / protocol_observable   the protocol on bits (C09/Spec.v)
+             wf_desc                      the decidable well-formedness check of a description (C09/Wf.v)
+             anc                          the ancilla values actually PREPARED (at most one per ancilla, absent = 0) *)
+From Coq Require Import ZArith List Bool String.
+Import ListNotations.
+From QCE Require Import C09.Stim C09.Spec C09.Sem C09.Model C09.Wf C09.ProofsSem C09.ProofsBits C09.Proofs.
+From Gen Require Import Layouts.
+
+(* for EVERY well-formed description, data / ancilla state and number of cycles: the program runs inside the fragment to
+   exactly the protocol's record, the protocol's detector parities (0 from the third cycle on) and the observable *)
+Theorem C09_record : forall (D : rdesc) (init anc : list bool) (cycles : nat),
+  wf_desc D = true -> List.length init = List.length (r_data D) -> (List.length anc <= List.length (r_data D) - 1)%nat ->
+  exec (rep_stim D init anc cycles)
+  = Some (protocol_record init anc cycles (r_refocus D),
+          protocol_detectors init anc cycles (r_refocus D),
+          [protocol_observable init anc cycles (r_refocus D)]).
+Proof. exact ProofsSpec.exec_protocol. Qed.
+Print Assumptions C09_record.
+
+(* one QEC round (with or without refocusing) maps the product state (data x, ancilla a) to (x or its negation,
+   a XOR parities x), records the new ancilla values, and ends with every qubit in the computational basis *)
+Theorem C09_round_parity : forall (D : rdesc) (dd : bool) (m : mstate) (x a : list bool),
+  wf_desc D = true -> List.length x = List.length (r_data D) -> List.length a = (List.length (r_data D) - 1)%nat ->
+  seq_st (m_st m) (ast (bits x a) none) ->
+  runs (round_instrs D dd) m (bits (if dd && r_refocus D then map negb x else x) (xor_list a (parities x))) none
+       (rev (xor_list a (parities x))) [].
+Proof. exact round_parity. Qed.
+Print Assumptions C09_round_parity.
+
+(* never a CZ between two X-basis qubits, never an X-basis qubit measured *)
+Theorem C09_in_fragment : forall (D : rdesc) (init anc : list bool) (cycles : nat),
+  wf_desc D = true -> List.length init = List.length (r_data D) -> (List.length anc <= List.length (r_data D) - 1)%nat ->
+  is_random (rep_stim D init anc cycles) = false /\ is_outside (rep_stim D init anc cycles) = false.
+Proof. exact in_fragment. Qed.
+Print Assumptions C09_in_fragment.
+
+(* exactly (d-1)(cycles+1) detectors are evaluated; the record has 2d-1 heralding, (d-1)*max(cycles,1) parity and d final entries *)
+Theorem C09_detector_count : forall (D : rdesc) (init anc : list bool) (cycles : nat),
+  wf_desc D = true -> List.length init = List.length (r_data D) -> (List.length anc <= List.length (r_data D) - 1)%nat ->
+  exists r ds os, exec (rep_stim D init anc cycles) = Some (r, ds, os)
+                  /\ List.length ds = ((List.length init - 1) * (cycles + 1))%nat
+                  /\ List.length r = (2 * List.length init - 1 + (List.length init - 1) * Nat.max cycles 1 + List.length init)%nat.
+Proof. exact ProofsWf.detector_count. Qed.
+Print Assumptions C09_detector_count.
+
+(* the descriptions the constructor is called with are well-formed: chains of every distance ... *)
+Theorem C09_wf_desc_chain : forall (d : nat) (rf : bool), (1 <= d)%nat -> wf_desc (desc_of_chain d rf) = true.
+Proof. exact ProofsWf.wf_desc_chain. Qed.
+Print Assumptions C09_wf_desc_chain.
+
+(* ... and every contiguous data-to-data sub-chain of the three generated layout tables (finite: by computation) *)
+Theorem C09_wf_desc_layouts : forall (L : Layout) (ch : list string) (rf : bool),
+  In L shipped_layouts -> In ch (sub_chains (chain_of (layout_name L))) -> wf_desc (desc_of_layout L ch rf) = true.
+Proof. exact ProofsWf.wf_desc_layouts. Qed.
+Print Assumptions C09_wf_desc_layouts.
+
+Theorem C09_layout_chains_valid :
+  forallb (fun L => chain_valid L (chain_of (layout_name L))) shipped_layouts = true.
+Proof. exact ProofsWf.layout_chains_valid. Qed.
+Print Assumptions C09_layout_chains_valid.
+
+(* hence, for all distances, states and cycle counts *)
+Theorem C09_chain_record : forall (d : nat) (rf : bool) (init anc : list bool) (cycles : nat),
+  (1 <= d)%nat -> List.length init = d -> (List.length anc <= d - 1)%nat ->
+  exec (rep_stim (desc_of_chain d rf) init anc cycles)
+  = Some (protocol_record init anc cycles rf, protocol_detectors init anc cycles rf, [protocol_observable init anc cycles rf]).
+Proof. exact chain_record. Qed.
+Print Assumptions C09_chain_record.
+
+Theorem C09_layout_record : forall (L : Layout) (ch : list string) (rf : bool) (init anc : list bool) (cycles : nat),
+  In L shipped_layouts -> In ch (sub_chains (chain_of (layout_name L))) ->
+  List.length init = List.length (r_data (desc_of_layout L ch rf)) ->
+  (List.length anc <= List.length (r_data (desc_of_layout L ch rf)) - 1)%nat ->
+  exec (rep_stim (desc_of_layout L ch rf) init anc cycles)
+  = Some (protocol_record init anc cycles rf, protocol_detectors init anc cycles rf, [protocol_observable init anc cycles rf]).
+Proof. exact layout_record. Qed.
+Print Assumptions C09_layout_record.
+
+(* "every requested ancilla state is prepared": true of the preparation code guarded by the ancilla dictionary ... *)
+Theorem C09_own_source_prepares_requested : forall init anc : list bool, anc_as_prepared AncOwn init anc = anc.
+Proof. exact own_source_prepares_requested. Qed.
+Print Assumptions C09_own_source_prepares_requested.
+
+(* ... and refuted for the code the source has now (finding F5): data 0,1,0, ancilla 1,0, 2 cycles *)
+Theorem C09_requested_ancilla_prepared_refuted :
+  exists init anc cycles,
+    exec (rep_stim (desc_of_chain 3 true) init (anc_as_prepared AncFromData init anc) cycles)
+    <> Some (protocol_record init anc cycles true, protocol_detectors init anc cycles true, [protocol_observable init anc cycles true]).
+Proof. exact requested_ancilla_prepared_refuted. Qed.
+Print Assumptions C09_requested_ancilla_prepared_refuted.
